@@ -794,7 +794,7 @@ def c12_validate(st, lines):
     """[(rule, what)] violated by an accepted story."""
     bad = []
     try:
-        if json.loads(json.dumps(st)) != st:
+        if json.loads(json.dumps(st, allow_nan=False)) != st:      # strict JSON: NaN / Infinity are not JSON data
             bad.append(("json-roundtrip", "json.loads(json.dumps(story)) != story"))
     except Exception as e:  # noqa
         bad.append(("json-roundtrip", f"not JSON data: {type(e).__name__}"))
